@@ -206,7 +206,7 @@ Spec == Init /\ [][Next]_vars
 (* C17 *)
 C17_HistoryIndependent ==
     /\ \A m \in Models : mstate[m] = "built" => result[m] = Expected(m)
-    /\ \A s \in Solvers : solved[s] => series[s].ok /\ series[s].full
+    /\ \A s \in Solvers : (solved[s] /\ series[s].keys = SeriesKeys(block[s])) => series[s].ok /\ series[s].full
 
 C17_ReparseClean ==
     \A s \in Solvers : solved[s] => series[s].keys = SeriesKeys(block[s])
